@@ -76,6 +76,7 @@ class RefCPU:
         self.footprint_w = set()
         self.translations = []
         self.cpsr_unknown = 0
+        self.unknown_bits = {}
         self.it_frozen = False
         self.events = []
 
